@@ -11,7 +11,7 @@ from lib import Case
 
 PROP = "C12"
 DRIVER = "drv-c12"
-PROOF_MODULES = ["TetlProofs.C12.Props", "TetlProofs.C12.PropsExt"]
+PROOF_MODULES = ["TetlProofs.C12.Props", "TetlProofs.C12.PropsExt", "TetlProofs.C12.GenProps"]
 HARNESS = "harness/c12.cpp"
 HARNESS_FLAGS = ["-g0", "-Wno-unused-function"]
 SOURCES = ["include/etl/_chrono/duration.hpp", "include/etl/_chrono/duration_cast.hpp", "include/etl/_chrono/floor.hpp",
@@ -50,8 +50,15 @@ ASSUMPTIONS = ["std::chrono of libstdc++ 12 is the reference for spec validation
                "is masked (`ns=1`) on exactly those lines",
                "floating-point representations: IEEE-754 binary64 on both sides (Lean `Float`, x86-64 SSE2 double), no theorem",
                "ratio / ratio_multiply / ratio_divide / common_type are compile-time constants: an overflow there is a compile error, modelled as an error value"]
-TRUSTED = ["hand model Tetl/C12/Model.lean (incl. the four duration_cast_impl::cast bodies, modelled by hand) tied to the source by the "
-           "correspondence run (R1) on every run",
+TRUSTED = ["hand model Tetl/C12/Model.lean tied to the source by the correspondence run (R1) on every run; its four "
+           "duration_cast_impl::cast bodies (castCore) additionally by translation (gen/translate.py job set DURCAST_JOBS -> "
+           "Tetl/C12/Gen.lean on every run; TetlProofs/C12/GenProps.lean: generated = castCore and generated UB obligation = "
+           "castCore returns a value, for all 16 ordered pairs of the representations i16/i32/i64/u32, every count, and "
+           "every conversion factor CF::num, CF::den as a parameter); everything that selects a body (ratio_divide, common_type, "
+           "CF::num == 1 / CF::den == 1) and floor / ceil / round stay hand-modelled (they go through the comparison and "
+           "converting-constructor templates of duration, which the translator does not carry)",
+           "gen/translate.py v3 and clang-16's AST for the generated cast bodies; the constructor duration(Rep2 const&) is "
+           "translated as the conversion to the constructed type's rep (its mem-initialiser, not re-derived from the AST)",
            "gcd/lcm: the C14 model and its theorems (TetlProofs/C14) are reused",
            "spec Tetl/C12/Spec.lean validated against libstdc++ (R2) on every run",
            "Tetl/C12/FModel.lean (floating point) has no theorem: differential only"]
@@ -626,7 +633,9 @@ TECHNIQUE = ("Lean 4 proof: hand model of ratio / ratio_divide / common_type / t
              "the time_point members and casts / zero, min, max / the named aliases "
              "(C++ integer types, overflow = error) = exact rational (Q) "
              "semantics for all periods and counts in the documented domain; model tied to the code by an exhaustive-box + "
-             "boundary + seeded correspondence run against the implementation and libstdc++")
+             "boundary + seeded correspondence run against the implementation and libstdc++; the four duration_cast_impl::cast "
+             "bodies additionally by translation from the clang AST (regenerated on every run) and Lean proofs generated = hand "
+             "model for all counts and conversion factors")
 LEVEL_TEXT = ("Proved in Lean 4, for every pair of periods with positive numerator and denominator, to return (never an error: no "
               "signed overflow, no division by zero, no constructor dropped from overload resolution) exactly the value that exact "
               "rational arithmetic over Q prescribes: "
@@ -652,6 +661,11 @@ LEVEL_TEXT = ("Proved in Lean 4, for every pair of periods with positive numerat
               "(4) zero / min / max of duration and time_point are 0 and the least / greatest value of the representation; the ten "
               "named aliases nanoseconds..years have the periods of [time.syn] and signed representations of at least the required "
               "width (complete check). "
+              "(5) tie T: the four duration_cast_impl<To, CF, CR, CF::num == 1, CF::den == 1>::cast bodies are translated from the "
+              "clang AST of the current duration_cast.hpp on every run (CF::num, CF::den symbolic) for the 16 ordered pairs of the "
+              "harness' integer representations and proved equal to the model's castCore for every count and every conversion "
+              "factor, their undefined-behaviour obligations (product in intmax_t, divisor non-zero, not min / -1) being exactly "
+              "'castCore returns a value'. "
               "Every operation on floating-point representations, and floor / ceil / round / the binary operators on int16 and "
               "uint32 representations, are compared differentially only. The model is tied to the current source on every run "
               "by running model, implementation, Lean spec and libstdc++ on the same inputs under ASan/UBSan: all 100 ordered "
@@ -659,6 +673,7 @@ LEVEL_TEXT = ("Proved in Lean 4, for every pair of periods with positive numerat
               "int16, uint32 and mixed representations, periods not in lowest terms, double representations bit for bit, the same "
               "functions through time_point, and single inputs of the two finding classes.")
 LEVEL_NOTE = ("Trusted: Lean kernel + propext/Classical.choice/Quot.sound; the hand model's fidelity outside the explored inputs "
+              "(for the four cast bodies: gen/translate.py + clang-16 instead) "
               "(templates are modelled at the value level: a duration type is (representation, period); a time_point is its "
               "time_since_epoch(), and tpCast/tpFloor/.../tpEq... of the model are by definition the duration functions the source "
               "forwards to); the C14 gcd/lcm model; g++-12/ASan/UBSan; libstdc++ std::chrono as oracle for spec validation. The "
@@ -683,7 +698,8 @@ CORRESPONDENCE_ONLY = ["floor / ceil / round, the binary operators through the c
                        "uint32 representations (the theorems cover signed 32..64-bit representations there)",
                        "all operations on floating-point representations"]
 THEOREMS = {
-    "cast": ["C12.Props.durationCast_eq", "C12.Props.durationCast_eq_builtin", "C12.Props.durationCast_eq_of_result",
+    "cast": ["C12.GenProps.gen_cast_%s_%s_%s" % (sh, t, f) for sh in ("nd", "d", "n", "id")
+             for t in ("i16", "i32", "i64", "u32") for f in ("i16", "i32", "i64", "u32")] + ["C12.Props.durationCast_eq", "C12.Props.durationCast_eq_builtin", "C12.Props.durationCast_eq_of_result",
              "C12.Props.durationCast_eq_narrow_target", "C12.Props.durationCast_exact_iff"],
     "tp_cast": ["C12.Props.tpCast_eq", "C12.Props.tp_casts_forward", "C12.Props.durationCast_eq_of_result"],
     "floor": ["C12.Props.floor_eq", "C12.Props.floor_eq_of_result"], "tp_floor": ["C12.Props.tpRounding_eq"],
@@ -706,3 +722,23 @@ THEOREMS = {
     "tp_plus": ["C12.Props.tpPlus_exact"], "tp_minus": ["C12.Props.tpMinus_exact"], "tp_diff": ["C12.Props.tpDiff_exact"],
     "limits": ["C12.Props.limits_eq"], "named": ["C12.Props.named_eq"],
 }
+
+
+# ---- tie T for the four duration_cast_impl::cast bodies: regenerated from the clang AST on every run (gen/translate.py,
+# job set DURCAST_JOBS); TetlProofs/C12/GenProps.lean is re-checked against the regenerated Tetl/C12/Gen.lean and the driver
+# compares the generated body with castCore on every `cast` / `tp_cast` line (`!gen=`).
+def regenerate(ctx):
+    import sys
+    sys.path.insert(0, os.path.join(lib.VERIF, "gen"))
+    import translate
+    out = os.path.join(lib.LEAN, "Tetl", "C12", "Gen.lean")
+    try:
+        info = translate.translate_durcast(lib.REPO, out)
+    except translate.Unsupported as e:      # the translation unit itself is refused by clang
+        return {"generated_files": [os.path.relpath(out, lib.VERIF)], "hash": [], "changed": False, "functions": [],
+                "translator": translate.VERSION3, "error": str(e)}
+    res = {"generated_files": [os.path.relpath(out, lib.VERIF)], "hash": [lib.file_hash(out)], "changed": info["changed"],
+           "functions": info["functions"], "translator": info["translator"]}
+    if info["errors"]:
+        res["error"] = "; ".join(info["errors"])
+    return res
